@@ -599,6 +599,7 @@ func SelectOrder(n int) int {
 	if v < 0 || v >= n {
 		v = 0
 	}
+	s.settle(DSelect, int64(v))
 	return v
 }
 
@@ -635,7 +636,9 @@ func Float64() float64 {
 	f := float64(v) / float64(1<<53)
 	if f < 0 || f >= 1 {
 		f = 0.5
+		v = 1 << 52
 	}
+	s.settle(DRand, v)
 	return f
 }
 
@@ -651,6 +654,7 @@ func Intn(n int) int {
 	if v < 0 || v >= n {
 		v = 0
 	}
+	s.settle(DInt, int64(v))
 	return v
 }
 
@@ -684,8 +688,16 @@ func (s *Sim) decide(k byte, n int, gen func() int64) int64 {
 		v = gen()
 	}
 	s.dec = append(s.dec, Decision{K: k, V: v, N: n})
-	s.hash = (s.hash ^ uint64(v) ^ uint64(k)<<56) * 1099511628211
 	return v
+}
+
+// settle records the value a decision finally took (after clamping or the
+// default continuation) and mixes it into the schedule hash.
+//
+//go:norace
+func (s *Sim) settle(k byte, v int64) {
+	s.dec[len(s.dec)-1].V = v
+	s.hash = (s.hash ^ uint64(v) ^ uint64(k)<<56) * 1099511628211
 }
 
 // AddTimer registers a timer created by instrumented code.
@@ -967,6 +979,7 @@ func (s *Sim) choose(run []*Task) *Task {
 	v := s.decide(DTask, n, gen)
 	for _, t := range run {
 		if int64(t.ID) == v {
+			s.settle(DTask, v)
 			return t
 		}
 	}
@@ -977,12 +990,12 @@ func (s *Sim) choose(run []*Task) *Task {
 		// default continuation: keep the running task, else lowest id
 		for _, t := range run {
 			if t.ID == s.lastPick {
-				s.dec[len(s.dec)-1].V = int64(t.ID)
+				s.settle(DTask, int64(t.ID))
 				return t
 			}
 		}
 	}
-	s.dec[len(s.dec)-1].V = int64(run[0].ID)
+	s.settle(DTask, int64(run[0].ID))
 	return run[0]
 }
 
